@@ -128,6 +128,11 @@ def get_mod_nodes_remove_incompatibilities(
         # If any of the deriving nodes are in the confirmed nodes, we have an infeasible graph
         if len(deriving_nodes & confirmed_nodes) > 0:
             removed_nodes -= confirmed_nodes
+
+            # Confirmed nodes stay, so the edges between them have to stay too (removed_edges is shared with the caller):
+            # otherwise confirmed nodes lose their derivation and the infeasibility is forgotten by later choices
+            removed_edges.difference_update({removed_edge for removed_edge in removed_edges
+                                             if removed_edge[0] in confirmed_nodes and removed_edge[1] in confirmed_nodes})
             raise IncompatibilityError('Incompatibility constraint derives from confirmed nodes', {edge}, removed_nodes)
 
     return removed_nodes
